@@ -8,7 +8,12 @@ pub fn fname(i: usize) -> String {
     if RAW_FIELD_NAMES.with(|r| r.get()) {
         return ["r#type", "r#fn", "r#match", "r#loop", "r#move", "r#ref"][i % 6].to_string();
     }
-    format!("{}{}", ["q", "c", "x", "a", "m", "b"][i % 6], i)
+    // fields 0, 1 and 3 differ only in leading underscores (`q0`, `_q0`, `__q0`): bindings derived from field names must stay distinct
+    match i {
+        1 => "_q0".to_string(),
+        3 => "__q0".to_string(),
+        _ => format!("{}{}", ["q", "c", "x", "a", "m", "b"][i % 6], i),
+    }
 }
 
 thread_local! {
@@ -266,7 +271,16 @@ pub enum KeyForm {
     Nested,
     /// the key value is wrapped in `dxrt::Ik(..)`, whose inherent `cmp` / `partial_cmp` / `eq` / `hash` give wrong answers
     Inherent,
+    /// the key multiplies by a `macro_rules!` `expr` fragment `0 + 1` at the TOP LEVEL of the key expression (the
+    /// definition comes out of a macro; `@E@` marks the fragment): read without the fragment's own grouping, the key
+    /// would be `k * 0 + 1`, a constant
+    Fragment,
+    /// the same fragment inside nested groups
+    FragmentNested,
 }
+
+/// marker of the `expr` fragment in key expressions of `KeyForm::Fragment*`
+pub const FRAG: &str = "@E@";
 
 pub fn key_expr(attr: Tr, style: KeyStyle, form: KeyForm) -> String {
     let m = match style {
@@ -279,6 +293,8 @@ pub fn key_expr(attr: Tr, style: KeyStyle, form: KeyForm) -> String {
         KeyForm::Twice => format!("($.{m}(), $.{m}())"),
         KeyForm::Nested => format!("[({{ $.{m}() }}, 0u8)]"),
         KeyForm::Inherent => format!("dxrt::Ik($.{m}())"),
+        KeyForm::Fragment => format!("$.{m}() * {FRAG}"),
+        KeyForm::FragmentNested => format!("[({{ $.{m}() * {FRAG} }}, 0u8)]"),
     }
 }
 pub fn by_expr(attr: Tr, style: KeyStyle) -> String {
